@@ -62,7 +62,7 @@ def run(case):
         cls.append("dead_state")
     if not spec["F"]:
         cls.append("F_empty")
-    return {"nt": nondet and len(snap["Q"]) >= 2, "cls": cls, "out": {"dfa_states": len(snap["Q"])}}
+    return {"nt": (nondet or case.get("large")) and len(snap["Q"]) >= 2, "cls": cls, "out": {"dfa_states": len(snap["Q"])}}
 
 
 @st.composite
@@ -81,10 +81,44 @@ def ex(tier):
     return ("all NFAs with 2 states over {a} and over {a,b} with eps-moves (1024 + 16384)", gen())
 
 
+def large_spec(kind, size, pre, eps, rep):
+    """Structured large inputs: the subset automaton has a simple path of 1000+ states (deep recursion / long worklists)."""
+    if kind == "kth_from_end":
+        k = size
+        Q = ["%s%d" % (pre, i) for i in range(k + 1)]
+        d = [[Q[0], "a", Q[0]], [Q[0], "b", Q[0]], [Q[0], "a", Q[1]]] + [[Q[i], x, Q[i + 1]] for i in range(1, k) for x in "ab"]
+        return {"Q": Q, "S": ["a", "b"], "d": d, "q0": Q[0], "F": [Q[k]], "eps": eps, "rep": rep}
+    n = size
+    Q = ["%s%d" % (pre, i) for i in range(n)]
+    if kind == "chain":
+        d = [[Q[i], "a", Q[i + 1]] for i in range(n - 1)]
+        return {"Q": Q, "S": ["a"], "d": d, "q0": Q[0], "F": [Q[n - 1], Q[n // 2]], "eps": eps, "rep": rep}
+    d = [[Q[i], eps, Q[i + 1]] for i in range(n - 1)] + [[Q[n - 1], "a", Q[0]]]
+    return {"Q": Q, "S": ["a"], "d": d, "q0": Q[0], "F": [Q[n // 3]], "eps": eps, "rep": rep}
+
+
+def ex_large(tier):
+    ks = [8, 9, 10] if tier == "quick" else [8, 9, 10, 11, 12]
+    ns = [300, 1100] if tier == "quick" else [300, 700, 1100, 1500, 2500]
+    combos = [("kth_from_end", k) for k in ks] + [("chain", n) for n in ns] + [("eps_chain", n) for n in ns]
+    def gen():
+        for i, (kind, size) in enumerate(combos):
+            yield {"nfa": large_spec(kind, size, "qsn"[i % 3], ["", "ε"][i % 2], ["dd_set", "dd_lambda"][i % 2]), "large": True}
+    return ("structured large NFAs: k-th symbol from the end (k in %r), symbol chains and eps-chains of %r states" % (ks, ns), gen())
+
+
 CLAUSES = [
     Clause("nfa_to_dfa", cases, run, quick=1200, thorough=10000, exhaustive=ex,
            rule="random NFA specs (1-6 states, 0-3 symbols, eps-cycles, dead ends, F empty/full); result checked for validity, exact "
                 "language equivalence (product walk against an independent subset construction), initial-state label and reachability; "
                 "non-trivial: NFA has an eps-move or a non-deterministic choice and the result has >= 2 states"),
 ]
+CLAUSES.append(
+    Clause("large", None, run, quick=0, thorough=0, exhaustive=ex_large, watchdog=300,
+           rule="structured large NFAs: 'k-th symbol from the end is a' (512..8192 subset states), symbol chains and eps-chains of 300..2500 states; the same "
+                "validity / exact equivalence / initial label / reachability predicates; every case is large by construction"))
+from props import workbench as WB   # noqa: E402
+
+CLAUSES.append(Clause("object_history", lambda tier: WB.fa_programs(tier, "subset"), WB.run_fa, quick=500, thorough=5000,
+                      rule="(nfa_to_dfa on objects with a history: queried before, modified in place, determinised again) " + WB.FA_RULE))
 KNOWN_PREDICATES = {}
